@@ -92,7 +92,7 @@ type c13Stream struct{}
 func (c13Stream) Name() string               { return "c13" }
 func (c13Stream) CaseTimeout() time.Duration { return 60 * time.Second }
 func (c13Stream) Rule() string {
-	return "K sessions in parallel (1..8) through a recording TCP forwarder: a conforming client first issues 0..3 plain requests, then sends StartTLS, the handler waits D1 ms before its reply and D2 ms between the reply and Request.StartTLS (0..40 ms each, occasionally 1.3 s), the client starts its handshake the moment the reply arrives (so its ClientHello is in the socket while the handler is still running), then issues N requests inside the tunnel (in three cases of seven with DNs of 1.3 to 40 KB, which span several TLS records and must reach the handler whole), sequentially or pipelined, occasionally after 6 s of silence; optionally with all clients waiting for every StartTLS reply before any handshake, with Stop called while the tunnels are busy, or (for the race detector only) with a slow request still in flight when StartTLS is served; oracle: the handshake succeeds, every request in the tunnel is answered correctly and numbered after the StartTLS request, and every byte the server sent after the StartTLS reply parses as TLS records; trace replayed through the connection automaton; non-trivial = D1 + D2 > 0 or pipelined requests, distinct by scenario"
+	return "K sessions in parallel (1..8) through a recording TCP forwarder: a conforming client first issues 0..3 plain requests, then sends StartTLS, the handler waits D1 ms before its reply and D2 ms between the reply and Request.StartTLS (0..40 ms each, occasionally 1.3 s), the client starts its handshake the moment the reply arrives (so its ClientHello is in the socket while the handler is still running), then issues N requests inside the tunnel (in three cases of seven with DNs of 1.3 to 40 KB, which span several TLS records and must reach the handler whole), sequentially or pipelined, occasionally after 6 s (rarely 11 s) of silence; optionally with all clients waiting for every StartTLS reply before any handshake, with Stop called while the tunnels are busy, or (for the race detector only) with a slow request still in flight when StartTLS is served; oracle: the handshake succeeds, every request in the tunnel is answered correctly and numbered after the StartTLS request, and every byte the server sent after the StartTLS reply parses as TLS records; trace replayed through the connection automaton; non-trivial = D1 + D2 > 0 or pipelined requests, distinct by scenario"
 }
 
 func (c13Stream) Generate(rng *rand.Rand, n int, thorough bool) []Case {
@@ -106,6 +106,9 @@ func (c13Stream) Generate(rng *rand.Rand, n int, thorough bool) []Case {
 			after = 1300 // ... or between its answer and the handshake
 		case 2:
 			idle = 6000 // a session that stays quiet for a while after the upgrade
+			if rng.Intn(3) == 0 {
+				idle = 11000 // ... or for longer than any handshake deadline one would pick
+			}
 		case 3:
 			linger = 1500 // a handler that goes on working after Request.StartTLS has returned
 		}
